@@ -1,8 +1,15 @@
 package c06
 
 import (
+	"context"
 	"encoding/binary"
+	"fmt"
+	"net/netip"
 	"testing"
+
+	"github.com/database64128/shadowsocks-go/conn"
+	"github.com/database64128/shadowsocks-go/ss2022"
+	"github.com/database64128/shadowsocks-go/zerocopy"
 )
 
 // TestSweep is a bounded-exhaustive structural pass over the valid seeds (the ones produced by the repo's
@@ -111,6 +118,7 @@ func TestSweep(t *testing.T) {
 			sweep(seeds[i], 40, func(m []byte) { oraclePacket(t, sels[i], m) })
 		}
 	})
+	run("ss2022-udp-established", TestSweepEstablished)
 	run("dns", func(t *testing.T) {
 		sels, names, firsts, seconds := dnsSeeds()
 		for _, i := range []int{0, 2, 4} {
@@ -119,4 +127,140 @@ func TestSweep(t *testing.T) {
 		// framed mode: the harness repairs length prefix, id and flags, so the sweep reaches the resource parsers
 		sweep(firsts[15], 120, func(m []byte) { oracleDNS(t, 1, 0, names[15], m, nil) })
 	})
+}
+
+// rawRec is a datagram record of the raw-mode UDP oracles: [len][wire bytes].
+func rawRec(b []byte) []byte { return cat(binary.BigEndian.AppendUint16(nil, uint16(len(b))), b) }
+
+// genuineClientPackets returns n datagrams of one session produced by the repo's real ss2022 UDP client for cfg.
+func genuineClientPackets(t *testing.T, cfg uint8, n int) (pkts [][]byte, cc *ss2022.ClientCipherConfig, sess zerocopy.UDPClientSession, info zerocopy.UDPClientSessionInfo) {
+	k := ssKeysFor(cfg)
+	var ipsks [][]byte
+	psk := k.psk
+	if k.eih {
+		ipsks, psk = [][]byte{k.psk}, k.upsk
+	}
+	cc, err := ss2022.NewClientCipherConfig(psk, ipsks, true)
+	if err != nil {
+		t.Fatalf("harness: %v", err)
+	}
+	c := ss2022.NewUDPClient("c", "ip", conn.AddrFromIPPort(upstream), 1500, conn.DefaultUDPClientListenConfig, 0, cc, ss2022.NoPadding)
+	info, sess, err = c.NewSession(context.Background())
+	if err != nil {
+		t.Fatalf("harness: %v", err)
+	}
+	for i := 0; i < n; i++ {
+		buf := make([]byte, info.PackerHeadroom.Front+5+info.PackerHeadroom.Rear)
+		copy(buf[info.PackerHeadroom.Front:], "hello")
+		_, ps, pl, err := sess.Packer.PackInPlace(context.Background(), buf, conn.AddrFromIPAndPort(netip.MustParseAddr("127.0.0.1"), 53), info.PackerHeadroom.Front, 5)
+		if err != nil {
+			t.Fatalf("harness: %v", err)
+		}
+		pkts = append(pkts, append([]byte(nil), buf[ps:ps+pl]...))
+	}
+	return
+}
+
+// TestSweepEstablished: for every ss2022 UDP server configuration (both key sizes, with and without identity headers)
+// a session is established with one genuine datagram from the repo's real client, and then EVERY prefix 0..len of
+// further genuine datagrams of that session (and of the first one), plus every prefix from 16 bytes up with its last
+// byte flipped, goes through the same session-table path and the same unpacker object (SessionInfo -> table hit ->
+// UnpackInPlace, as service/udp_session*.go do; NewUnpacker only ever sees the first datagram). Nothing here needs a
+// key: an on-path observer can replay the first bytes of a captured datagram. The mirror image is done for the client
+// unpacker with genuine replies packed by the repo's real server packer for that client session.
+func TestSweepEstablished(t *testing.T) {
+	for _, cfg := range []uint8{0, ssM256, ssEIH, ssM256 | ssEIH} {
+		t.Run(fmt.Sprintf("server-%#x", cfg), func(t *testing.T) {
+			pk, _, _, _ := genuineClientPackets(t, cfg, 3)
+			for l := 0; l <= len(pk[1]); l++ {
+				oracleSS2022UDPServer(t, cfg|ssRaw, cat(rawRec(pk[0]), rawRec(pk[1][:l])))
+				oracleSS2022UDPServer(t, cfg|ssRaw, cat(rawRec(pk[0]), rawRec(pk[1]), rawRec(pk[2][:l])))
+				oracleSS2022UDPServer(t, cfg|ssRaw, cat(rawRec(pk[0]), rawRec(pk[0][:l])))
+				if l >= 1 {
+					f := append([]byte(nil), pk[1][:l]...)
+					f[l-1] ^= 0x01
+					oracleSS2022UDPServer(t, cfg|ssRaw, cat(rawRec(pk[0]), rawRec(f)))
+					if l > 16 { // damage behind the separate header: still the established session
+						g := append([]byte(nil), pk[1]...)
+						g[l-1] ^= 0x80
+						oracleSS2022UDPServer(t, cfg|ssRaw, cat(rawRec(pk[0]), rawRec(g)))
+					}
+				}
+			}
+		})
+		t.Run(fmt.Sprintf("client-%#x", cfg), func(t *testing.T) { sweepEstablishedClient(t, cfg) })
+	}
+}
+
+func sweepEstablishedClient(t *testing.T, cfg uint8) {
+	pk, _, sess, _ := genuineClientPackets(t, cfg, 1)
+	// the real server answers the real client
+	ucc, icc, suc, err := ssUDPKeys(cfg)
+	if err != nil {
+		t.Fatalf("harness: %v", err)
+	}
+	var server *ss2022.UDPServer
+	if cfg&ssEIH != 0 {
+		server = ss2022.NewUDPServer(0, ss2022.UserCipherConfig{}, icc, ss2022.NoPadding)
+		server.ReplaceUserLookupMap(ss2022.UserLookupMap{ss2022.PSKHash(ssKeysFor(cfg).upsk): suc})
+	} else {
+		server = ss2022.NewUDPServer(0, ucc, icc, ss2022.NoPadding)
+	}
+	req := append([]byte(nil), pk[0]...)
+	csid, err := server.SessionInfo(req)
+	if err != nil {
+		t.Fatalf("harness: %v", err)
+	}
+	su, _, err := server.NewUnpacker(req, csid)
+	if err != nil {
+		t.Fatalf("harness: %v", err)
+	}
+	if _, _, _, err = su.UnpackInPlace(req, upstream, 0, len(req)); err != nil {
+		t.Fatalf("harness: genuine client packet rejected by the real server: %v", err)
+	}
+	sp, err := su.NewPacker()
+	if err != nil {
+		t.Fatalf("harness: %v", err)
+	}
+	var replies [][]byte
+	for i := 0; i < 3; i++ {
+		hr := sp.ServerPackerInfo().Headroom
+		buf := make([]byte, hr.Front+5+hr.Rear)
+		copy(buf[hr.Front:], "reply")
+		ps, pl, err := sp.PackInPlace(buf, netip.MustParseAddrPort("127.0.0.1:53"), hr.Front, 5, 1472)
+		if err != nil {
+			t.Fatalf("harness: %v", err)
+		}
+		replies = append(replies, append([]byte(nil), buf[ps:ps+pl]...))
+	}
+	feed := func(what string, pkt []byte) (err error) {
+		buf := make([]byte, 8+sess.MaxPacketSize)
+		copy(buf[8:], pkt)
+		guard(t, recSSUDPClient, "ss2022-udp-client-unpack", func() string { return fmt.Sprintf("cfg=%#x %s wire=%s", cfg, what, hexs(pkt)) }, func() {
+			_, s, l, e := sess.Unpacker.UnpackInPlace(buf, upstream, 8, len(pkt))
+			err = e
+			if e == nil && (s < 8 || l < 0 || s+l > 8+len(pkt)) {
+				t.Fatalf("SIG=C06/ss2022-udp-client-bounds VERIF-VIOLATION payload [%d,+%d) outside packet [8,+%d): %s", s, l, len(pkt), what)
+			}
+		})
+		return
+	}
+	if err := feed("genuine first reply", replies[0]); err != nil {
+		t.Fatalf("harness: genuine server packet rejected by the real client: %v", err)
+	}
+	n := 0
+	for _, r := range [][]byte{replies[1], replies[0], replies[2]} {
+		for l := 0; l <= len(r); l++ {
+			_ = feed(fmt.Sprintf("prefix %d", l), r[:l])
+			n++
+			if l >= 1 {
+				f := append([]byte(nil), r[:l]...)
+				f[l-1] ^= 0x01
+				_ = feed(fmt.Sprintf("prefix %d last byte flipped", l), f)
+				n++
+			}
+		}
+	}
+	recSSUDPClient.Case(fmt.Sprintf("established/%#x", cfg), true, "established-prefix-sweep")
+	recSSUDPClient.Label("established-prefixes", int64(n))
 }
